@@ -8,6 +8,12 @@ CHECKS = {
  "C02": ("exploration", "runtime monitor: recording spy Signer/Verifier + byte-equality oracle against an independent Sig_structure builder",
          "Every ToBeSigned the library hands to a caller-supplied signer/verifier during the seeded workload (constructed and reference-encoded wire messages, all head widths, size boundaries, all COSE_Sign positions) is compared byte for byte with a reference built from the wire bytes; held on the executions observed, not a proof.",
          "trusted: refcbor/refcose (validated against RFC 8949 appendix A, the 18 COSE conformance vectors' tbsHex and three RFC 9338 example structures), Go stdlib", "DESIGN.md section 4 C02"),
+ "C01": ("exploration", "runtime monitor: chains of real API calls (sign, verify, marshal, unmarshal, detach, re-attach) with each step's error as oracle",
+         "Seeded chains over every structure kind, all 7 algorithms (also via COSE_Key), header/payload/external boundary classes and constructed/decoded/reference-encoded parents; any step failing after a successful signing call is a violation. Held on the chains executed.",
+         "trusted: Go stdlib crypto and crypto/rand; the generator only builds messages of the supported data model (DESIGN.md section 3)", "DESIGN.md section 4 C01"),
+ "C03": ("exploration", "runtime monitor: differential oracle - library Verify verdict vs independent reference verdict (own Sig_structure from the same wire bytes + stdlib primitive) on mutated wire messages; forgery corollary monitor",
+         "Every decodable mutant of validly signed messages of every kind (all single-bit flips of small messages, byte edits, structural faults, semantic edits, transplants across messages/contexts, ECDSA encodings, other external data/keys) gets the library verdict compared with the reference verdict in both directions. Held on the mutants executed.",
+         "trusted: refcbor/refcose (self-test against conformance vectors), crypto/ecdsa, crypto/rsa, crypto/ed25519 verification primitives (shared with the library)", "DESIGN.md section 4 C03, appendix A.3"),
 }
 REASON_NOT_BUILT = "check not built yet in this round; no claim is made (see DESIGN.md build order)"
 
